@@ -1,6 +1,6 @@
 """Executable statements of the properties over the *real* objects (used to search for a failing
 input once a proof obligation or the correspondence breaks, and as a standing cross-check)."""
-import math, itertools
+import math, collections, itertools
 import numpy as np
 
 
@@ -141,8 +141,9 @@ def reachable(root):
     return order
 
 
-def c03_tree(part):
-    """The clauses of C03 on a real partition object. Returns list of (sig, detail)."""
+def c03_tree(part, arity=None):
+    """The clauses of C03 on a real partition object. Returns list of (sig, detail).
+    `arity`: the documented number of children of the partition class (2, K or 2^d) when the caller knows it."""
     out = []
     nl = part.get_node_list()
     root = part.get_root()
@@ -173,11 +174,11 @@ def c03_tree(part):
                     break
                 if c.get_depth() != n.get_depth() + 1:
                     out.append(("child-depth", "child depth != parent depth + 1"))
-            K = len(ch)
+            K = arity or len(ch)
             i = n.get_index()
             idx = [c.get_index() for c in ch]
             if idx != list(range(K * (i - 1) + 1, K * i + 1)):
-                out.append(("child-index", f"children of index {i} carry {idx}"))
+                out.append(("child-index", f"children of index {i} carry {idx[:12]}{'..' if len(idx) > 12 else ''} (arity {K})"))
         p = n.get_parent()
         if n is not root:
             if p is None or p.get_children() is None or not any(c is n for c in p.get_children()):
@@ -708,6 +709,20 @@ def sequool_hooks():
         if nd is root:
             if not S["exhausted"]:
                 S["exhausted"] = True
+                # the centre is handed out only once the whole schedule has been carried out: every depth 1..h_max has
+                # had min(floor(h_max/h), cells of that depth) cells opened and no opening is in progress
+                op = S["opening"]
+                if op is not None and op["next"] < len(op["kids"] if op["kids"] is not None else (op["cell"].get_children() or [])):
+                    case.fail("C12", "centre-before-exhaustion", "the centre is handed out while an opened cell still has unevaluated children", step=t, algo=name)
+                else:
+                    cells = collections.Counter(x.get_depth() for x in reachable(root))
+                    for h in range(1, S["hmax"] + 1):
+                        done = sum(1 for d in S["opened"].values() if d == h)
+                        want = min(S["hmax"] // h, cells.get(h, 0))
+                        if done != want:
+                            case.fail("C12", "centre-before-exhaustion", f"the centre is handed out although depth {h} has {done} opened cells, "
+                                      f"schedule: min(floor({S['hmax']}/{h}), {cells.get(h, 0)} cells) = {want}", step=t, algo=name)
+                            break
                 try:        # the recommendation at the moment the schedule is exhausted (before any further reward)
                     S["rec_at_exhaustion"] = list(a.get_last_point())
                 except Exception:
@@ -946,6 +961,9 @@ def gpo_hooks(name="GPO"):
         idx = [i for i, v in enumerate(g.V_reward) if float(v) == best]
         if not any(list(q) == list(g.V_x[i]) for i in idx):
             case.fail("C07", "recommendation-not-best-validated", f"{q}", step="end", algo=name)
+            if g.phase > g.N:        # all phases are over: the final choice is part of the published schedule
+                case.fail("C09", "final-choice", f"all phases are over, get_last_point returns {q}, the validated point(s) of highest score: "
+                          f"{[list(g.V_x[i]) for i in idx][:3]}", step="end", algo=name)
 
     return {"after_init": after_init, "after_pull": after_pull, "after_recv": after_recv, "at_end": at_end}
 
